@@ -211,7 +211,7 @@ def _close_accum(ref, got):
     return True
 
 
-def judge(rule, model, feeds, spec=None, accum=False):
+def judge(rule, model, feeds, spec=None, accum=False, loose=1.0):
     """Run the whole C05 oracle on one host model.
 
     -> dict(outcome=..., fired=bool, problems=[(kind, detail)], admitted=int, skipped={reason:n})
@@ -269,8 +269,8 @@ def judge(rule, model, feeds, spec=None, accum=False):
         if got is None:
             res["problems"].append(("after-fails", {"feed": k, "error": aerr}))
             continue
-        d = runeq.compare(ref, got)
-        if d and accum and _close_accum(ref, got):
+        d = runeq.compare(ref, got, loose=loose)
+        if d and accum and loose == 1.0 and _close_accum(ref, got):
             res["within_accum_roundoff"] = res.get("within_accum_roundoff", 0) + 1
             d = None
         if d:
@@ -279,7 +279,7 @@ def judge(rule, model, feeds, spec=None, accum=False):
             # rewritten model (e.g. a kernel that rounds an attribute differently): nothing is concluded.
             try:
                 got_ref = runeq.run_ref(after, fd)
-                ok_ref = runeq.compare(ref, got_ref) is None or (accum and _close_accum(ref, got_ref))
+                ok_ref = runeq.compare(ref, got_ref, loose=loose) is None or (accum and _close_accum(ref, got_ref))
             except Exception:  # noqa: BLE001
                 ok_ref = False
             if ok_ref:
